@@ -182,6 +182,19 @@ func repoTypeDefs(p *Program) map[string]string {
 			if tn.IsAlias() {
 				def = "= " + types.TypeString(types.Unalias(tn.Type()), func(q *types.Package) string { return q.Name() })
 			}
+			// codec methods replace the encoding of the underlying type
+			var codecs []string
+			for _, t := range []types.Type{tn.Type(), types.NewPointer(tn.Type())} {
+				ms := types.NewMethodSet(t)
+				for i := 0; i < ms.Len(); i++ {
+					if reflectivelyCalled[ms.At(i).Obj().Name()] {
+						codecs = append(codecs, ms.At(i).Obj().Name())
+					}
+				}
+			}
+			if len(codecs) > 0 && !tn.IsAlias() {
+				def += " codecs[" + strings.Join(dedup(codecs), ",") + "]"
+			}
 			out[pk.Types.Name()+"."+n] = def
 		}
 	}
